@@ -419,6 +419,8 @@ C17_SCENARIOS = [
     scn("two-header", ["A"], [E("A", "a"), E("A", "b")], init="header"),
     scn("two-rows", ["A"], [E("A", "a"), E("A", "b")], init="rows", prior=["a"]),
     scn("three-noexit", ["A"], [E("A", "a"), E("A", "b"), E("A", "c")], init="absent", normal_exit=False),
+    # the calls of a session run in forked worker processes; the kill takes the whole process group
+    scn("two-header-processes", ["A"], [E("A", "a"), E("A", "b"), E("A", "a")], init="header", workers="processes"),
 ]
 # beyond the listed properties: an output file with another configuration's header must be refused untouched
 FOREIGN_SCENARIO = scn("foreign-header", ["A"], [E("A", "a"), E("A", "b")], init="foreign", prior=["q"])
